@@ -2,6 +2,7 @@ package world
 
 import (
 	"fmt"
+	"time"
 
 	"verif/sim/core"
 	"verif/sim/simhttp"
@@ -82,6 +83,16 @@ func genKnobs(t *core.Tape, kind Kind) simhttp.Knobs {
 	k.DownEOFData = t.Bool(1, 2, "downeofdata")
 	k.AutoFlush = t.Bool(1, 3, "autoflush")
 	k.ExtraHeaders = t.Bool(1, 4, "extrahdr")
+	// a transport goroutine that is busy for a while after forwarding request
+	// bytes (so it learns late how the request body ended), and an end of
+	// response that follows the handler's return late
+	lags := []time.Duration{3, 10, 30, 100, 300}
+	if t.Bool(1, 4, "pumplag") {
+		k.PumpLag = lags[t.Choose(len(lags), "pumplag.us")] * time.Microsecond
+	}
+	if t.Bool(1, 4, "finishlag") {
+		k.FinishLag = lags[t.Choose(len(lags), "finishlag.us")] * time.Microsecond
+	}
 	if k.HTTP2 {
 		k.Lazy = t.Bool(1, 4, "lazy")
 		if t.Bool(1, 2, "postaccept") {
